@@ -109,7 +109,7 @@ def run(case):
     rng = random.Random(case["wseed"] + 5)
     shapes, ca, items = case["shapes"], case["ca"], case["items"]
     seq, cubes = C.build_sequence(shapes, ca, case["fam"], case["wseed"])
-    idx = C.to_py_index(items, case.get("bare", False))
+    idx = C.to_py_index(items, case.get("bare", False), C.npint_of(case))
     allc = np.concatenate([c.data for c in cubes], axis=ca)
     citem = items[ca] if len(items) > ca else C.sl()
     has_step = any(isinstance(it, dict) and it["s"][2] not in (None, 1) for it in items)
